@@ -101,7 +101,14 @@ def run(rep):
     rep.check('R07.a', fkey(f, 'canonical form'), ok, 'canonical path = normalize_path(request path, route.is_branch)' if ok else
               'normalize_path is not applied to (url_path, route.is_branch)', app, nps)
     # strict
-    strict_t = [n.id for n in cfg.nodes if n.kind == 'branch' and norm(n.test) == '%s.slash_mode == S_STRICT' % rv and n.pol is True]
+    def _is_strict(t_, p_):
+        s = norm(t_)
+        if s in ('%s.slash_mode == S_STRICT' % rv, 'S_STRICT == %s.slash_mode' % rv):
+            return p_
+        if s in ('%s.slash_mode != S_STRICT' % rv, 'S_STRICT != %s.slash_mode' % rv):
+            return not p_
+        return None
+    strict_t = [nid for nid, t_, p_ in cfg.branches() if _is_strict(t_, p_) is True]
     addx = dv.calls_stmt('add_exception', dv.ds_var)
     addx_nf = []
     for s in addx:
@@ -116,7 +123,7 @@ def run(rep):
     rep.check('R07.a', fkey(f, 'strict mode'), ok,
               'strict mode: a non-canonical path records a not-found error and the route is not executed' if ok else
               'strict mode does not reliably skip the route with a recorded not-found error', app, addx_nf[0] if addx_nf else dv.loop)
-    strict_f = [n.id for n in cfg.nodes if n.kind == 'branch' and norm(n.test) == '%s.slash_mode == S_STRICT' % rv and n.pol is False]
+    strict_f = [nid for nid, t_, p_ in cfg.branches() if _is_strict(t_, p_) is False]
     ok = bool(strict_f) and bool(set(exec_nodes) & cfg.reach(strict_f, avoid=dv.head, normal_only=True))
     rep.check('R07.a', fkey(f, 'rewrite mode'), ok, 'in neither mode (rewrite) the route is executed directly' if ok else
               'rewrite mode does not fall through to execute', app, dv.exec_st)
